@@ -159,7 +159,11 @@ void reb_integrator_part2(struct reb_simulation* r){
                 }
                 dt *= forward;
             }
+            // The ODEs are at time t, not yet at the time the N-body system has reached: the derivatives are evaluated relative to r->t.
+            const double t_nbody = r->t;
+            r->t = t;
             int success = reb_integrator_bs_step(r, dt);
+            r->t = t_nbody;
             if (success){
                 t += dt;
             }
